@@ -69,7 +69,13 @@ RECURSIVE Merge(_)
 Merge(ps) == IF Len(ps) < 2 THEN ps
              ELSE IF ps[1].k = "txt" /\ ps[2].k = "txt" THEN Merge(<<Txt(ps[1].cs \o ps[2].cs)>> \o SubSeq(ps, 3, Len(ps)))
              ELSE <<ps[1]>> \o Merge(Tail(ps))
-WithSpan(ps, f) == IF "spans" \in f /\ Len(ps) >= 2 THEN <<ps[1], Span(Tail(ps))>> ELSE IF "spans" \in f /\ Len(ps) = 1 THEN <<Span(ps)>> ELSE ps
+\* "spans": part of the paragraph sits in text:span elements. With three pieces or more the span is in the middle -- it has
+\* children of its own (a nested span from the fourth piece on) AND text or elements behind its end tag, which belong
+\* behind everything the span holds
+WithSpan(ps, f) == IF "spans" \notin f \/ ps = <<>> THEN ps
+                   ELSE IF Len(ps) = 1 THEN <<Span(ps)>>
+                   ELSE IF Len(ps) = 2 THEN <<ps[1], Span(Tail(ps))>>
+                   ELSE <<ps[1], Span(<<ps[2]>> \o (IF Len(ps) >= 4 THEN <<Span(SubSeq(ps, 3, Len(ps) - 1))>> ELSE <<>>)), ps[Len(ps)]>>
 \* split a text at "nl"
 RECURSIVE SplitNl(_, _)
 SplitNl(t, cur) == IF t = <<>> THEN <<cur>> ELSE IF Head(t) = "nl" THEN <<cur>> \o SplitNl(Tail(t), <<>>) ELSE SplitNl(Tail(t), Append(cur, Head(t)))
